@@ -92,13 +92,27 @@ func (p *Program) normVal(v ssa.Value, neg bool) *CondAtom {
 			return &CondAtom{Kind: "callbool", Call: x, X: x, Neg: neg}
 		}
 	case *ssa.Phi:
+		// a boolean variable assigned only constants (phi web of constants)
 		allConst := true
-		for _, e := range x.Edges {
-			if _, ok := e.(*ssa.Const); !ok {
-				allConst = false
+		seen := map[*ssa.Phi]bool{}
+		var walk func(ph *ssa.Phi)
+		walk = func(ph *ssa.Phi) {
+			if seen[ph] {
+				return
+			}
+			seen[ph] = true
+			for _, e := range ph.Edges {
+				switch y := e.(type) {
+				case *ssa.Const:
+				case *ssa.Phi:
+					walk(y)
+				default:
+					allConst = false
+				}
 			}
 		}
-		if allConst {
+		walk(x)
+		if allConst && isBool(x.Type()) {
 			return &CondAtom{Kind: "flag", X: x, Neg: neg}
 		}
 	}
@@ -972,4 +986,36 @@ func SameValue(a, b ssa.Value) bool {
 		}
 	}
 	return strip(a) == strip(b)
+}
+
+// BypassExists: is there a path from instruction w to a commit return that does not execute instruction d?
+func (p *Program) BypassExists(fn *ssa.Function, w, d ssa.Instruction, commitAll bool) *ssa.Return {
+	wb, db := w.Block(), d.Block()
+	if wb == db && instrIndex(d) > instrIndex(w) {
+		return nil // d always follows w in the same block
+	}
+	// forbid entering db (d is the first relevant thing there: conservative—entering db means executing d
+	// only if d precedes the block's exit, which always holds)
+	blocked := map[Edge]bool{}
+	for _, b := range fn.Blocks {
+		for i, s := range b.Succs {
+			if s == db {
+				blocked[Edge{b, i}] = true
+			}
+		}
+	}
+	reach := reachFrom(wb, blocked, true)
+	for _, r := range p.Returns(fn) {
+		if r.Class == RetFail && !commitAll {
+			continue
+		}
+		rb := r.Ret.Block()
+		if rb == wb && instrIndex(r.Ret) > instrIndex(w) {
+			return r.Ret
+		}
+		if rb != wb && reach[rb] {
+			return r.Ret
+		}
+	}
+	return nil
 }
